@@ -31,9 +31,26 @@ class G:
             return w.capitalize()
         return w
 
+    STEMS = ["rdi", "info", "radio", "budget", "magic", "data", "addr", "wr_en", "valid", "ready", "status", "cfg", "count", "fifo", "sync", "tag", "mag", "obs"]
+    AFFIX = {"s_": ("s_", "_s", "sig_", ""), "c_": ("c_", "_c", "C_", ""), "p_": ("i_", "_i", "_o", "o_", "_io", ""), "g_": ("g_", "_g", "G_", ""), "v_": ("v_", "_v", ""), "t_e": ("t_", "_t", "")}
+
     def uid(self, p):
         self.n += 1
+        if p in self.AFFIX and self.r.random() < 0.7:
+            a = self.r.choice(self.AFFIX[p])
+            stem = self.r.choice(self.STEMS)
+            if self.r.random() < 0.3:
+                stem = stem.upper()
+            nm = (a + stem) if a.endswith("_") or not a else (stem + a)
+            return "%s%d" % (nm, self.n) if self.r.random() < 0.4 else self._uniq(nm)
         return "%s%d" % (p, self.n)
+
+    def _uniq(self, nm):
+        self.used = getattr(self, "used", set())
+        if nm.lower() in self.used:
+            return "%s%d" % (nm, self.n)
+        self.used.add(nm.lower())
+        return nm
 
     def chance(self, p):
         return self.r.random() < p
